@@ -27,9 +27,9 @@ import (
 
 func init() {
 	run.Register(&run.Prop{
-		ID:    "C17",
-		Title: "Encoders and Renderers carry no state across Reset; output is deterministic",
-		Rule:  "every case is a pair (A, B): A a history that dirties the object (well-formed, erroneous of every error class, truncated mid-path, high resolution on, every register/selector/LOD/smooth state changed, run-length arguments pending), B a well-formed program built to depend on reset defaults (fills from palette-initialised registers, blends and gradients reading unwritten registers, default LOD, ADJ from selector 0, smooth operation first in a path); the object is reused for B and compared with a fresh object; non-trivial = A leaves at least one piece of state different from the reset state; distinctness by hash of both call lists",
+		ID:          "C17",
+		Title:       "Encoders and Renderers carry no state across Reset; output is deterministic",
+		Rule:        "every case is a pair (A, B): A a history that dirties the object (well-formed, erroneous of every error class, truncated mid-path, high resolution on, every register/selector/LOD/smooth state changed, run-length arguments pending), B a well-formed program built to depend on reset defaults (fills from palette-initialised registers, blends and gradients reading unwritten registers, default LOD, ADJ from selector 0, smooth operation first in a path); the object is reused for B and compared with a fresh object; non-trivial = A leaves at least one piece of state different from the reset state; distinctness by hash of both call lists",
 		Assumptions: []string{"equality is exact: bytes, rasterizer call logs with paint snapshots, pixels"},
 		Subs: []*run.Sub{
 			{Name: "encoder", N: func(t string) uint64 {
@@ -38,14 +38,14 @@ func init() {
 				}
 				return 120_000
 			}, Run: c17Encoder,
-				Min: map[string]int64{"pairs": 100000, "A_erroneous": 10000, "A_mid_path": 10000, "A_highres": 10000, "A_pending_run": 10000, "bytes_twice": 100000, "encode_twice": 100000, "flag_before_reset": 10000}},
+				Min: map[string]int64{"pairs": 100000, "A_erroneous": 10000, "A_mid_path": 10000, "A_highres": 10000, "A_pending_run": 10000, "bytes_twice": 100000, "encode_twice": 100000, "flag_before_reset": 10000, "B_all_zero_metadata": 5000, "B_metadata_equals_A_metadata": 2000}},
 			{Name: "renderer", N: func(t string) uint64 {
 				if t == "thorough" {
 					return 4_000_000
 				}
 				return 80_000
 			}, Run: c17Renderer,
-				Min: map[string]int64{"pairs": 60000, "A_truncated_stream": 10000, "A_decode_error": 10000, "A_mid_path": 5000, "B_gradient_from_default_registers": 5000, "B_smooth_first": 5000, "draws_compared": 50000, "pixel_pairs": 2000, "A_other_rectangle": 10000, "B_viewbox_is_A_viewbox_moved": 3000, "B_palette_equals_A_palette": 3000}},
+				Min: map[string]int64{"pairs": 60000, "A_truncated_stream": 10000, "A_decode_error": 10000, "A_mid_path": 5000, "B_gradient_from_default_registers": 5000, "B_smooth_first": 5000, "draws_compared": 50000, "pixel_pairs": 2000, "A_other_rectangle": 10000, "B_viewbox_is_A_viewbox_moved": 3000, "B_palette_equals_A_palette": 3000, "pixel_pairs_A_into_empty_rectangle": 500, "pixel_pairs_operator_left_by_A": 100}},
 		},
 	})
 }
@@ -63,7 +63,7 @@ func c17ProgramB(r *run.Rng) []rec.Op {
 	if r.Bool() {
 		nst := r.Pick(2, 3)
 		ops = append(ops, rec.Op{K: rec.KSetNSel, Sel: 30}, rec.Op{K: rec.KSetNReg, Adj: 6, F: [6]float32{0.03}}) // other five matrix registers stay 0
-		ops = append(ops, rec.Op{K: rec.KSetNSel, Sel: 31})                                                  // NREG[30] stays 0: first offset
+		ops = append(ops, rec.Op{K: rec.KSetNSel, Sel: 31})                                                       // NREG[30] stays 0: first offset
 		for i := 1; i < nst; i++ {
 			ops = append(ops, rec.Op{K: rec.KSetNReg, Incr: true, F: [6]float32{float32(i) / float32(nst)}})
 		}
@@ -137,6 +137,24 @@ func c17Encoder(c *run.Ctx, idx uint64) {
 	vbB, palB := ivg.DefaultViewBox, ivg.DefaultPalette
 	if r.Bool() {
 		vbB, palB = gen.ViewBox(r), gen.Palette(r)
+	}
+	// Metadata for which a Reset might think "nothing changed": the all-zero
+	// Metadata (what a never-Reset zero-value Encoder holds), the default one
+	// (what it behaves as), and the one history A was Reset with.
+	switch r.Intn(8) {
+	case 0:
+		vbB, palB = ivg.ViewBox{}, [64]color.RGBA{}
+		c.Count("B_all_zero_metadata", 1)
+	case 1:
+		for i := len(a) - 1; i >= 0; i-- {
+			if a[i].K == rec.KReset && a[i].Pal != nil {
+				vbB, palB = a[i].VB, *a[i].Pal
+				c.Count("B_metadata_equals_A_metadata", 1)
+				break
+			}
+		}
+	case 2:
+		vbB, palB = ivg.DefaultViewBox, ivg.DefaultPalette
 	}
 	hiresB := r.Chance(1, 3)
 	flagBefore := r.Chance(1, 4) // set the public flag before Reset: Reset must clear it
@@ -470,11 +488,31 @@ func c17Renderer(c *run.Ctx, idx uint64) {
 		c.Count("pixel_pairs", 1)
 		bounds := image.Rect(0, 0, rect.Max.X+2, rect.Max.Y+2)
 		img1, img2 := image.NewRGBA(bounds), image.NewRGBA(bounds)
+		bgSeed := r.U64()
+		fillPattern(img1, bgSeed) // a non-blank background, so that the compositing operator matters
+		fillPattern(img2, bgSeed)
 		scratch := image.NewRGBA(bounds)
 		vz := &vec.Rasterizer{Dst: scratch, DrawOp: draw.Src}
 		var z render.Renderer
-		z.SetRasterizer(vz, rect)
-		if moderateStream(bytesA, rect) {
+		rectA2 := rect
+		if r.Chance(1, 4) {
+			// history A was rendered into an empty rectangle
+			rectA2 = image.Rectangle{Min: rect.Min, Max: image.Pt(rect.Min.X, rect.Max.Y)}
+			c.Count("pixel_pairs_A_into_empty_rectangle", 1)
+		}
+		z.SetRasterizer(vz, rectA2)
+		// vec.Rasterizer.DrawOp is documented as one-shot: the next Draw call uses
+		// it and sets it to draw.Over. Half of the pairs re-arm it before B (as a
+		// caller who wants Src would), the other half leave what history A left:
+		// Over if A reached a Draw call (whatever the rectangle), Src otherwise.
+		rearm := r.Bool()
+		opB := draw.Src
+		moderate, drawsA := moderateStream(bytesA, rectA2)
+		if moderate {
+			if !rearm && drawsA > 0 {
+				opB = draw.Over
+				c.Count("pixel_pairs_operator_left_by_A", 1)
+			}
 			// History A may be hostile; golang.org/x/image/vector itself can panic on
 			// it (DESIGN 6.5: integer divide by zero in its fixed-point span loop for an
 			// almost horizontal, very long segment). A history that ends in a panic of
@@ -484,15 +522,23 @@ func c17Renderer(c *run.Ctx, idx uint64) {
 				return
 			}
 		}
-		okp := c.Guard("pixel reuse", func() interface{} { return desc(nil) }, func() {
-			vz.Dst, vz.DrawOp = img1, draw.Src
+		okp := c.Guard("pixel reuse", func() interface{} {
+			return desc(map[string]interface{}{"A_rectangle": rectA2.String(), "operator_rearmed": rearm})
+		}, func() {
+			vz.Dst = img1
+			if rearm {
+				vz.DrawOp = draw.Src
+			}
+			if rectA2 != rect {
+				z.SetRasterizer(vz, rect)
+			}
 			decode.Decode(&z, bytesB)
 			var zf render.Renderer
-			zf.SetRasterizer(&vec.Rasterizer{Dst: img2, DrawOp: draw.Src}, rect)
+			zf.SetRasterizer(&vec.Rasterizer{Dst: img2, DrawOp: opB}, rect)
 			decode.Decode(&zf, bytesB)
 		})
 		if okp && !bytes.Equal(img1.Pix, img2.Pix) {
-			c.Violate("renderer/reused-pixels-differ-from-fresh", desc(nil))
+			c.Violate("renderer/reused-pixels-differ-from-fresh", desc(map[string]interface{}{"A_rectangle": rectA2.String(), "operator_rearmed": rearm, "operator_for_fresh": fmt.Sprint(opB)}))
 		}
 	}
 	_ = color.RGBA{}
@@ -502,10 +548,10 @@ func c17Renderer(c *run.Ctx, idx uint64) {
 // moderateStream reports whether rendering the stream drives the rasterizer
 // with coordinates of moderate magnitude only (x/image/vector's cost is
 // unbounded in coordinate magnitude).
-func moderateStream(b []byte, rect image.Rectangle) bool {
+func moderateStream(b []byte, rect image.Rectangle) (moderate bool, draws int) {
 	rz := &rec.Raster{Discard: true}
 	var z render.Renderer
 	z.SetRasterizer(rz, rect)
 	decode.Decode(&z, b)
-	return rz.MaxAbs <= 1e5 && !math.IsNaN(rz.MaxAbs)
+	return rz.MaxAbs <= 1e5 && !math.IsNaN(rz.MaxAbs), rz.NDraw
 }
